@@ -45,7 +45,7 @@ func (c20) Rule() string {
 		"it) packs.BuildInternalDocForServerSeq(s) is called for random s <= head in random order between the pushes of a " +
 		"generated history, the returned document is scribbled on (the next logged change is applied to it, as PushPull does) and " +
 		"the same s is requested again; a change-fed shadow of the stored log gives the expected content per s. Oracle: every " +
-		"rebuild, cache hit or miss, before or after an eviction, equals the shadow at s."
+		"rebuild, cache hit or miss, before or after an eviction, equals the shadow at s. Every second snapshot case ends with a compaction after which the new generation outgrows the cached old one."
 }
 func (c20) Assumptions() []string {
 	return []string{"ChangeStore is exercised directly (the surrounding mongo.Client methods need a live MongoDB); the protocol around it is copied from client.go CreateChangeInfos / FindChangeInfosBetweenServerSeqs",
